@@ -227,7 +227,7 @@ func (t *FSTree) readHeader(id oid.ID, f *os.File, buf []byte) ([]byte, io.ReadS
 	for {
 		if bytes.Equal(thisOID, id[:]) {
 			if l == 0 {
-				return nil, nil, io.ErrUnexpectedEOF
+				return nil, f, io.ErrUnexpectedEOF
 			}
 			size := min(offset+int(l), offset+objectwire.NonPayloadFieldsBufferLength)
 			if n < size {
